@@ -60,10 +60,10 @@ class ConvHooks(Hooks):
             hidden = (M,) if _inside_loop(interp, node) else ()      # one SED per iteration of the model loop
             return Obj(repo.cls('sed.sed', 'SED'), {
                 'name': Arr((), sym('sname', *hidden)), 'distance': scalar(sym('sdist')),
-                '_apertures': None if self.single else symarr('sap', (A,), unit=unit_atom('au')),
+                '_apertures': None if self.single is True else symarr('sap', (A,), unit=unit_atom('au')),
                 '_wav': symarr('swav', (N,), unit=unit_atom('micron')), '_nu': symarr('snu', (N,), unit=unit_atom('Hz')),
-                '_flux': symarr('sflux', ((None if self.single else A), N), extra=hidden, unit=unit_atom('mJy')),
-                '_error': symarr('serr', ((None if self.single else A), N), extra=hidden, unit=unit_atom('mJy'))})
+                '_flux': symarr('sflux', ((None if self.single is True else A), N), extra=hidden, unit=unit_atom('mJy')),
+                '_error': symarr('serr', ((None if self.single is True else A), N), extra=hidden, unit=unit_atom('mJy'))})
         if q.endswith(':SEDCube.read') or q.endswith(':BaseCube.read'):
             self.sed_read_kwargs.append(dict(kwargs))
             return Obj(repo.cls('sed.cube', 'SEDCube'), {
@@ -126,6 +126,8 @@ def run_driver(repo, version, single_aperture=False):
                         fluxes_holder['env'] = env
             return r
     I = Tr(repo, h)
+    if single_aperture == 'one':
+        I.axis_len[A] = 1          # a package tabulated at exactly one (real) aperture
     out = I.call(fi, ['DIR', filters], kwargs)
     return fi, I, h, fluxes_holder
 
@@ -133,7 +135,7 @@ def run_driver(repo, version, single_aperture=False):
 def reference(version, single_aperture=False):
     R = sym('R', N, F)
     if version == 1:
-        if single_aperture:
+        if single_aperture is True:
             fl, er = sym('sflux', N, M), sym('serr', N, M)
         else:
             fl, er = sym('sflux', A, N, M), sym('serr', A, N, M)
